@@ -384,8 +384,38 @@ def r23lex(ctx: Ctx) -> RuleReport:
                norm(fcall.func.value), where, key='_lex finditer receiver')
     arg_ok = len(fcall.args) == 1 and not fcall.keywords and isinstance(fcall.args[0], ast.Name) \
         and fcall.args[0].id == v_line
-    rep.oblige('finditer scans the whole line (no pos/endpos, no slice)', arg_ok, norm(fcall), where,
-               key='_lex finditer argument')
+    cut = None
+    if not arg_ok and len(fcall.args) >= 2:
+        # the scan is bounded by a position that a textual search for one character produced: can that character stand inside a token?
+        for a in fcall.args[1:]:
+            for x in ast.walk(a):
+                if isinstance(x, ast.Name):
+                    for st_ in walk_local(fi.node):
+                        if isinstance(st_, ast.Assign) and any(isinstance(y, ast.Name) and y.id == x.id for t_ in st_.targets for y in ast.walk(t_)) \
+                                and isinstance(st_.value, ast.Call) and isinstance(st_.value.func, ast.Attribute) \
+                                and st_.value.func.attr in ('partition', 'rpartition', 'find', 'index', 'rfind', 'rindex', 'split') and st_.value.args:
+                            okc, ch = try_fold(st_.value.args[0])
+                            if okc and isinstance(ch, str) and len(ch) == 1:
+                                cut = (ch, st_)
+    if cut is not None:
+        ch, st_ = cut
+        wit = None
+        for cp in _patterns(ctx):
+            for nm_ in cp.names():
+                if nm_ in (None, 'COMMENT', 'UNEXPECTED'):
+                    continue
+                w = cp.lang(nm_).witness_intersection(Lang.from_pattern('.+' + re.escape(ch) + '.*', re.DOTALL))
+                if w is not None and wit is None:
+                    wit = (cp.name, nm_, w)
+        if wit:
+            rep.add('_lex finditer argument', where, 'violation',
+                    f'`{norm(fcall)[:60]}` scans the line only up to / from the first {ch!r} (`{norm(st_)[:50]}`), found without regard to the tokens: {ch!r} can stand inside a '
+                    f'{wit[1]} token of {wit[0]} ({wit[2]!r}), which is then cut in two - the quoted string loses its closing quote, the rest of the line is taken for a comment')
+        else:
+            rep.oblige('finditer scans the whole line (no pos/endpos, no slice)', False, norm(fcall), where, key='_lex finditer argument')
+    else:
+        rep.oblige('finditer scans the whole line (no pos/endpos, no slice)', arg_ok, norm(fcall), where,
+                   key='_lex finditer argument')
     # every outer iteration reaches the finditer call
     pm = ctx.repo.parent_map(fi.node)
     opm = ctx.repo.parent_map(outer_fi.node)
@@ -414,6 +444,8 @@ def r23lex(ctx: Ctx) -> RuleReport:
             if itx is fcall:
                 inner = n
     if inner is None or not isinstance(inner.target, ast.Name):
+        if rep.violations():
+            return rep
         raise AnalysisError('_lex: no `for m in <finditer result>` loop found')
     v_m = inner.target.id
     # Token construction and yield
